@@ -144,7 +144,7 @@ def judge(w: World, scn: Dict[str, Any], obs: CS.Obs, client_async: bool) -> Dic
                         w.violate('C19.completion', f'attempt {a}: end event of a notification carries a response',
                                   **ctx)
                 elif end is not None and end.get('text') is not None:
-                    if c['resp_doc'] is None or not R.json_equal(c['resp_doc'], json.loads(end['text'])):
+                    if c['resp_doc'] is None or not R.same_document(c['resp_doc'], json.loads(end['text'])):
                         w.violate('C19.completion', f'attempt {a}: end event carries {c["resp_doc"]!r}, the reply was '
                                   f'{end["text"][:100]}', **ctx)
         else:
